@@ -1252,7 +1252,7 @@ func checkC15(c *core.Ctx) {
 	c.SetRule("direct half: TABLE_MAP events built by the independent encoder (schemas of 1..600 columns, dense at 249..253 and at metadata blocks of 247..254 bytes so that both length fields use the 0xfc form; all 31 column type codes with metadata drawn from each type's domain; db / table names of 1..255 bytes: ASCII, UTF-8, arbitrary non-NUL and high bytes; nullability classes none / all / alternating / random / single bit in first or last byte / all-but-one; 4- and 6-byte ids with pairwise distinct bytes; with and without 1..5 trailing optional-metadata TLVs (types 1..12, lengths 0..1000); checksum off / CRC32 / undefined; both event wrappers) decoded with StripChecksum + TableID + TableMap and compared field by field; plus four enumerated sub-domains (see exhaustive). Streamed half: hand-built histories over 2..4 tables ((db,name) pairs sharing table names across databases), 2..12 table ids (half of the histories with ids differing in one byte only), ids interleaved inside statements, the same id re-announced between statements with other column types, the same table under a second id (same or other types), announced-but-unused ids, 24 configuration combos, optional rotation; streamed through the real Streamer and compared with the model, then repeated with the k-th mapper lookup answering column count +/-1 (2 sampled k in quick, every k and both signs in thorough). A direct case is distinct by event bytes, non-trivial iff >= 2 columns; a streamed case is distinct by (history bytes, bad lookup, sign)")
 	c.Assume("metadata uint16 convention as documented at ev.MetaBytes; VAR_STRING carries two little-endian metadata bytes like VARCHAR")
 	c.Assume("the mapper identifies a table by (db, name); column names and signedness by ordinal position are those of the first version of the table")
-	c.Assume("not demanded: an id re-announced under a different table name; over-wide (non-minimal) lenenc forms")
+	c.Assume("an id is re-announced under a different table name only after a server restart (c15_rebind.go); not demanded: over-wide (non-minimal) lenenc forms")
 	if c.Replay != "" {
 		c15Replay(c)
 		return
